@@ -40,14 +40,16 @@ DOM_QUICK = {"b1": range(1, 11), "b2": range(1, 11), "i1": range(0, 7),
              "i2": range(0, 7), "f1": range(0, 8), "f2": range(0, 8),
              "bw": range(1, 9), "bx": range(1, 9),
              "iw": range(0, 5), "ix": range(0, 5),
-             "k0": (1, 2, 3, 5, 1024), "k1": (1, 2, 3, 7),
+             "k0": (1, 2, 3, 5, 1024, 2 ** 15, 2 ** 15 + 1, 2 ** 20 - 1,
+                    2 ** 20), "k1": (1, 2, 3, 7),
              "k2": (1, 2, 3, 64), "k3": (1, 2, 16)}
 # thorough: witness search for non-identical forms over wider operands
 DOM_THOROUGH = {"b1": range(1, 25), "b2": range(1, 25), "i1": range(0, 13),
                 "i2": range(0, 13), "f1": range(0, 13), "f2": range(0, 13),
                 "bw": range(1, 17), "bx": range(1, 17),
                 "iw": range(0, 9), "ix": range(0, 9),
-                "k0": (1, 2, 3, 5, 9, 17, 1024, 4097),
+                "k0": (1, 2, 3, 5, 9, 17, 1024, 4097, 2 ** 15, 2 ** 15 + 1,
+                       2 ** 16 + 1, 2 ** 17 + 3, 2 ** 20 - 1, 2 ** 20),
                 "k1": (1, 2, 3, 5, 7), "k2": (1, 2, 3, 64, 513),
                 "k3": (1, 2, 3, 16, 512)}
 DOM = dict(DOM_QUICK)
@@ -303,6 +305,56 @@ def rule_merge(rep, repo):
       rep.extra.setdefault("merge_paths", {})[cfg] = npaths
 
 
+def rule_siblings(rep, repo):
+  """R6: operand classes derived from a KINDS class (StochasticBinary,
+  StochasticTernary, Bernoulli, QuantizedTanh, QuantizedUlaw) describe the
+  same value sets, so the adder factory must give them the same adder and
+  output type as the class they derive from, in both operand positions."""
+  af = repo.module(AF)
+  fw = Fwd()
+  kinds = [k for k in ta.KINDS if k != "float"]
+  for cname, kind in ta.sibling_operands(repo):
+    ref_q = ta.make_operand(PE(repo), repo, kind, "1")
+    sib_q = ta.make_sibling(PE(repo), repo, cname, kind, "1")
+    if sib_q.attrs.get("mode") != ref_q.attrs.get("mode"):
+      alt = [k for k in ta.KINDS if ta.KINDS[k][2] == sib_q.attrs.get("mode")
+             and ta.KINDS[k][1] is None]
+      if len(alt) != 1:
+        continue
+      kind = alt[0]
+    for kp in kinds:
+      for pos in (0, 1):
+        outs = []
+        for use_sib in (False, True):
+          pe3 = PE(repo)
+          fac3 = pe3.call(pe3.lookup_global("IAdder", af), [], {})
+          tag = "1" if pos == 0 else "2"
+          a = ta.make_sibling(pe3, repo, cname, kind, tag) if use_sib else \
+              ta.make_operand(pe3, repo, kind, tag)
+          b = ta.make_operand(pe3, repo, kp, "2" if pos == 0 else "1")
+          args = [a, b] if pos == 0 else [b, a]
+          try:
+            r = pe3.call(pe3.getattr(fac3, "make_quantizer"), args, {})
+            o3 = r.attrs.get("output")
+            outs.append((r.cls.name, o3.attrs.get("mode"),
+                         ta.field(o3, "bits", fw),
+                         ta.field(o3, "int_bits", fw),
+                         bool(o3.attrs.get("is_signed"))))
+          except PyRaise as e:
+            outs.append(("raises %s" % e.exc_name,))
+        cfg = "IAdder.make_quantizer(%s at position %d, other=%s)" % (
+            cname, pos, kp)
+        unit = "%s::%s" % (repo.module(AI).relpath,
+                           outs[0][0] if not outs[0][0].startswith("raises")
+                           else "IAdder")
+        sh = lambda o: tuple(show(v) if isinstance(v, NF) else v for v in o)
+        rep.check(outs[0] == outs[1], "R6", unit,
+                  "sibling-operand-class-treated-differently",
+                  "%s gives %s, the same call with the %s class it derives "
+                  "from gives %s" % (cfg, sh(outs[1]), kind, sh(outs[0])),
+                  instance=cfg)
+
+
 def run(rep, repo, tier):
   DOM.clear()
   DOM.update(DOM_THOROUGH if tier == "thorough" else DOM_QUICK)
@@ -315,6 +367,13 @@ def run(rep, repo, tier):
   rule_adder(rep, repo)
   rule_accumulator(rep, repo)
   rule_merge(rep, repo)
+  rule_siblings(rep, repo)
+  rep.require_instances("R6", 40)
+  # R7: get_min_max_exp (trusted by the po2 adders / accumulators) against
+  # the qkeras po2 quantizers' own exponent sets (rule shared with C18)
+  from .c18 import rule_po2_exponents
+  rule_po2_exponents(rep, repo, tier, rule="R7")
+  rep.require_instances("R7", 200)
   rep.require_instances("R1", 40)
   rep.require_instances("R3", 40)
   rep.require_instances("R4", 40)
